@@ -415,6 +415,48 @@ fn case_utf8_atoms(input: &Input, ctx: &mut Ctx) -> CaseResult {
     Ok(())
 }
 
+/// nums = [first code point, count]: every Unicode scalar value as the content of text fields (v3 CONNECT client id under
+/// both protocol levels, v5 user property name and value): all of them are well-formed UTF-8 and must be accepted with the
+/// value the bytes spell
+fn case_codepoints(input: &Input, ctx: &mut Ctx) -> CaseResult {
+    let n = input.nums();
+    let mut chars = 0u64;
+    for cp in n[0]..n[0] + n[1] {
+        let c = match char::from_u32(cp as u32) {
+            Some(c) => c,
+            None => continue,
+        };
+        chars += 1;
+        let mut buf = [0u8; 4];
+        let seq = c.encode_utf8(&mut buf).as_bytes().to_vec();
+        let (f3, f5) = utf8_frames(&seq);
+        let mut frames: Vec<(&str, Vec<u8>, bool)> = vec![("v3.1.1 CONNECT client id", f3, false), ("v5 PUBLISH user property", f5, true)];
+        if cp % 16 == 0 || cp < 0x3000 || (cp & 0xFFFF) >= 0xFFF0 || (0xFDD0..=0xFDEF).contains(&cp) {
+            for (lab, fr) in utf8_connect_frames(&seq) {
+                if lab.starts_with("v3.1 ") && !(c == '\0' || c == '+' || c == '#') {
+                    frames.push((lab, fr, false));
+                }
+            }
+        }
+        for (lab, fr, v5) in frames {
+            let r = if v5 { decide::<V5>(&fr, ctx) } else { decide::<V3>(&fr, ctx) };
+            match r {
+                Ok(Some(l)) if l == "accept" => {}
+                Ok(other) => viol!("MQV-INTERNAL: the reference decoder does not accept {} containing U+{:04X}: {:?}", lab, cp, other),
+                Err(v) => {
+                    ctx.refine = Some((if v5 { "c04.frame.v5" } else { "c04.frame.v3" }, Input::Bytes(fr.clone())));
+                    return Err(Violation::new(format!("{} containing U+{:04X}: {}", lab, cp, v.msg)));
+                }
+            }
+        }
+    }
+    ctx.more_evals((chars * 2).saturating_sub(1));
+    ctx.count_distinct(chars * 2);
+    ctx.label_n("code-points", chars);
+    Ok(())
+}
+
+pub const SUB_CODEPOINTS: Sub = Sub { name: "c04.codepoints", f: case_codepoints };
 pub const SUB_UTF8_ATOMS: Sub = Sub { name: "c04.utf8-atom-sequences", f: case_utf8_atoms };
 pub const SUB_UTF8: Sub = Sub { name: "c04.utf8-sequences", f: case_utf8 };
 
@@ -444,7 +486,7 @@ pub const SUB_B3: Sub = Sub { name: "c04.frame.v3", f: case_bytes::<V3> };
 pub const SUB_B5: Sub = Sub { name: "c04.frame.v5", f: case_bytes::<V5> };
 
 pub fn subs() -> Vec<Sub> {
-    vec![SUB_V3, SUB_V5, SUB_B3, SUB_B5, SUB_H3, SUB_H5, SUB_X3, SUB_X5, SUB_UTF8, SUB_UTF8_ATOMS]
+    vec![SUB_V3, SUB_V5, SUB_B3, SUB_B5, SUB_H3, SUB_H5, SUB_X3, SUB_X5, SUB_UTF8, SUB_UTF8_ATOMS, SUB_CODEPOINTS]
 }
 
 /// hand-assembled frames: the defects repaired by 284f652 / 2d36388 and the pinned leniencies
@@ -479,6 +521,8 @@ pub fn run(env: &mut Env) -> RunResult {
     let full = env.thorough();
     let total = utf8_seq_count(full);
     env.run_enum(SUB_UTF8, total.div_ceil(4_096), true, move |i| Input::Nums(vec![full as u64, i * 4_096, 4_096.min(total - i * 4_096)]))?;
+    env.run_enum(SUB_CODEPOINTS, 0x11_0000 / 2_048, true, |i| Input::Nums(vec![i * 2_048, 2_048]))?;
+    env.require("c04.codepoints", "code-points");
     let atoms = env.tier.sel(3u64, 4u64);
     let at = utf8_atom_seq_count(atoms as u32);
     env.run_enum(SUB_UTF8_ATOMS, at.div_ceil(512), true, move |i| Input::Nums(vec![atoms, i * 512, 512.min(at - i * 512)]))?;
